@@ -242,7 +242,11 @@ class _HamiltonianSystem(_DynamicalSystem):
             Compiled function implementing Hamilton's equations.
         """
 
-        jac_H, clmo_H, n_dof = self.jac_H, self.clmo_H, self.n_dof
+        # A jitted closure cannot capture numba typed lists (they cannot be frozen as
+        # constants), so capture the same arrays as homogeneous tuples instead.
+        jac_H = tuple(tuple(block for block in var_derivs) for var_derivs in self.jac_H)
+        clmo_H = tuple(arr for arr in self.clmo_H)
+        n_dof = self.n_dof
 
         def _rhs_impl(t: float, state: np.ndarray) -> np.ndarray:
             # Autonomous: t is unused; required for interface consistency
